@@ -139,6 +139,7 @@ def cases(rng, tier):
 SPEC = {
     'lean': ['C13', 'NatSem'],
     'cases': cases,
+    'big': True,
     'stream': 'C13 observer event stream (DebuggerBase events vs model events)',
     'rule': 'families also run without an observer, counting evaluation starts through a wrapper of interpret.interpret (linear bound); random typed programs, doubling / fan-out families and share-kind families (a delayed expression of each kind of value — numbers, empty and non-empty strings / bytes / lists / dictionaries / exceptions, Booleans, Nil, functions, every kind of I/O action — used four times per level) of depth k (quick: 9 depths ≤ 50, thorough: 1…200), '
             'run under a passive recording observer: no delayed expression may have two evaluations with children, the '
